@@ -80,7 +80,8 @@ def _pad_face_connections(
 
     if isinstance(da, dict):
         isvector = True
-        vectoraxis, da = da.popitem()
+        # do not empty the dictionary of the caller
+        vectoraxis, da = list(da.items())[-1]
     else:
         isvector = False
 
@@ -89,7 +90,7 @@ def _pad_face_connections(
         # TODO: We do not need to deal with other components
         # TODO: Need to integrate that choice deeper in the loop\.
         if other_component:
-            _, da_partner = other_component.popitem()
+            _, da_partner = list(other_component.items())[-1]
         else:
             # TODO: cover with a test.
             raise ValueError(
